@@ -13,7 +13,7 @@ from checks._flow import FlowModel
 ID = "C11"
 SUPERVISED = True
 CASE_TIMEOUT = 30.0
-RULE = ("every flow-direction grid of the listed shapes over {0, 8 ESRI codes, 1 invalid code} (reduced per-cell "
+RULE = ("every flow-direction grid of the listed shapes over {0, 8 ESRI codes, a small invalid code, an invalid code beyond 2^32 whose low 32 bits are a valid code} (reduced per-cell "
         "alphabets where stated) x accumulated fields {default None, uniform 0.25, cell+1, position pattern over "
         "{-2,0,3}} executed on the real hydrodiy.gis.grid.accumulate and compared with the upstream-closure sum of an "
         "independent model (both as closure sum and as own + sum of direct upstream accumulated values); cyclic grids "
@@ -29,9 +29,9 @@ ASSUMPTIONS = [
 
 def bound_text(tier, seed):
     if tier == "quick":
-        return ("all grids 1x1..1x3, 2x1, 3x1, 2x2 over 10 codes, 1x4/4x1 reduced alphabet, 2x3 and 3x3 <=2 deviations, "
+        return ("all grids 1x1..1x3, 2x1, 3x1, 2x2 over 11 codes, 1x4/4x1 reduced alphabet, 2x3 and 3x3 <=2 deviations, "
                 "1x8, 2x5, 4x4 <=1 deviation; 4 fields each")
-    return ("all grids <=5 cells over 10 codes; all 2x3/3x2 over the reduced alphabet; all 3x3 over {in-grid dirs, sink}; "
+    return ("all grids <=5 cells over 11 codes; all 2x3/3x2 over the reduced alphabet; all 3x3 over {in-grid dirs, sink}; "
             "1x8, 8x1, 2x5, 4x4 with <=2 deviations; 4 fields each (2 for 3x3)")
 
 
